@@ -25,6 +25,8 @@
 EXTENDS Integers, Sequences, FiniteSets, TLC, Json, BlockManagerProps
 
 CONSTANTS MaxMsgs,          \* messages / events per history
+          MaxPeerEv,        \* 0: peer connects/disconnects count as messages; k > 0: they have a budget
+                            \* of their own (k per history), kept in the tens digit of nmsgs
           MaxRestarts, MaxFaults, MaxCrashes,
           FixCpFloor,       \* reorg floor uses the checkpoint AT the tip height too
           FixListReset,     \* header list re-anchored on the stored tip on early returns
@@ -343,14 +345,16 @@ Finish(w, a0) ==
       /\ abs' = AbsNext(abs, a, o2)
       /\ viol' = Viol(abs, Obs, a, abs', o2)
 
-Tick == ~down /\ nmsgs < MaxMsgs /\ nmsgs' = nmsgs + 1 /\ UNCHANGED nrestarts
+Tick == ~down /\ (nmsgs % 10) < MaxMsgs /\ nmsgs' = nmsgs + 1 /\ UNCHANGED nrestarts
+PTick == IF MaxPeerEv = 0 THEN Tick
+         ELSE ~down /\ (nmsgs \div 10) < MaxPeerEv /\ nmsgs' = nmsgs + 10 /\ UNCHANGED nrestarts
 
 NewPeer(p, sh) ==
-  /\ Tick /\ ~conn[p] /\ UNCHANGED <<nfaults, ncrashes, down>>
+  /\ PTick /\ ~conn[p] /\ UNCHANGED <<nfaults, ncrashes, down>>
   /\ Finish(HandleNewPeer(W, p, sh), Act("NewPeer", p, <<>>, sh, "ok"))
 
 DonePeer(p) ==
-  /\ Tick /\ conn[p] /\ UNCHANGED <<nfaults, ncrashes, down>>
+  /\ PTick /\ conn[p] /\ UNCHANGED <<nfaults, ncrashes, down>>
   /\ Finish(HandleDonePeer(W, p), Act("DonePeer", p, <<>>, 0, "ok"))
 
 Inv(p, id) ==
